@@ -31,6 +31,7 @@ UNITS = {
     'PRODUCER': dict(template='producer.rs', rlimit=30),
     'SERFIX': dict(template='serfix.rs', rlimit=30),
     'VALUESER': dict(template='valueser.rs', rlimit=30),
+    'ACCSESS': dict(template='accsess.rs', rlimit=30),
 }
 
 VARW = 'PROVED for every value (units SERSTR + READERS): strings, symbols and binaries of ANY length and content, outside and inside arrays -- the serializer writes a valid str8/str32, sym8/sym32, vbin8/vbin32 encoding whose size field counts octets ([C05.*.encoding], [C05.*.array-element]); the decoder reads both width variants by the AMQP layout and accepts every one of them from a reliable reader ([C05.*.decoding], [C05.*.every-variant-accepted]); lemma_var_round_trip joins the two: decode(encode(x) ++ rest) == x, consuming exactly the encoding; serialized_size agrees with the octets written ([C20.size.*]); compound headers are decoded to the body length and count the layout defines ([C05.compound.header-decoding])'
@@ -159,7 +160,7 @@ PROPS = {
             'only the sequential stages are under contract: session hold-back/stamping (SESSION) and frame splitting (FRAMEENC); link-level split, reassembly and the codec round trip are separate units where built',
             'mpsc hand-offs, engine select! loops, credit/window liveness under scheduling, and all configurations x schedules are NOT decided']),
     'C08': dict(
-        units=['LINKFLOW', 'SENDSPLIT', 'PRODUCER'], kani=[], level='proof', title='Sender link credit',
+        units=['LINKFLOW', 'SENDSPLIT', 'PRODUCER', 'ACCSESS'], kani=[], level='proof', title='Sender link credit',
         lemmas={'LINKFLOW': ['lemma_c08_consume_preserves_limit', 'lemma_c08_flow_establishes_limit']},
         assumptions=[ASYNC,
             'NOT DECIDED: "a send waiting for credit completes however the grant races with the wait" (notified().await vs notify_waiters is a two-task schedule property; no thread model in either verifier)',
@@ -204,7 +205,7 @@ PROPS = {
             'controller side (unit TXNCTRL): declare_on_link, discharge_on_link, send_on_control_link, Transaction::discharge, OwnedTransaction::discharge, post_inner, TransactionRetirement::retire, DeliveryState::{accepted_or_else, declared_or_else} are under contract with the control link / sender / receiver as ghost-trace stand-ins and the Mutex around the control link erased; post_ref_inner, acquisition and the rollback-on-drop path are not',
             'the coordinator (unit TXNCOORD): on_declare, on_discharge, reject, handle_delivery_result under contract with the session requests and the receiver link as ghost-trace stand-ins', 'NOT DECIDED: the coordinator event loop (select!), abort of the remaining ids on Drop / when the controlling link goes away, several concurrent control links, freshness of a transaction id over the whole history (only among live ids)']),
     'C11': dict(
-        units=['SESSION', 'FRAMEENC', 'CONN', 'SENDSPLIT', 'CONNENG'],
+        units=['SESSION', 'FRAMEENC', 'CONN', 'SENDSPLIT', 'CONNENG', 'ACCSESS'],
         lemmas={'SENDSPLIT': ['lemma_link_expected'], 'FRAMEENC': ['lemma_expected_properties']}, kani=[], level='proof', title='Identifiers',
         assumptions=[ASYNC, ENGINE,
             'fewer than 2^32 link handles are live in one session (handle = slab key as u32)',
@@ -224,7 +225,7 @@ PROPS = {
             'NOT DECIDED: what a dropped future does inside library futures; the Detach arm of recv_inner and Sender::send\'s wait for the outcome; starvation dynamics under repeated cancellation beyond the per-call credit leak; duplicates (none possible in the functions under contract: a frame leaves the channel once)',
             ASYNC]),
     'C15': dict(
-        units=['SESSION', 'CONN', 'FRAMEDEC', 'LINK', 'CONNENG', 'TRANSPORT', 'SEQACCESS'], kani=[], level='proof', title='Misbehaving peer',
+        units=['SESSION', 'CONN', 'FRAMEDEC', 'LINK', 'CONNENG', 'TRANSPORT', 'SEQACCESS', 'ACCSESS'], kani=[], level='proof', title='Misbehaving peer',
         assumptions=[ASYNC, ENGINE,
             'never-blocks-forever and isolation between connections are not decided',
             'handlers of peer input carry no precondition on the peer-controlled arguments']),
